@@ -6,6 +6,7 @@ package main
 import (
 	"fmt"
 	"math"
+	"reflect"
 	"strings"
 
 	. "adharness/common"
@@ -67,7 +68,95 @@ func (o *MOp) Coq() string {
 	panic("unknown mop " + o.K)
 }
 
+// dense matrix element types: every instantiation of the templates is exercised separately
+type mtype struct {
+	name  string
+	real  bool
+	bound int64 // |entries| up to which elementwise / dot products stay exactly representable
+	mk    func(v []float64, r, c int) ad.Matrix
+	as    func(m ad.ConstMatrix) ad.Matrix
+	clone func(m ad.Matrix) ad.Matrix
+}
+
+func convInt(v []float64) []int {
+	r := make([]int, len(v))
+	for i, x := range v {
+		r[i] = int(x)
+	}
+	return r
+}
+func convI8(v []float64) []int8 {
+	r := make([]int8, len(v))
+	for i, x := range v {
+		r[i] = int8(x)
+	}
+	return r
+}
+func convI16(v []float64) []int16 {
+	r := make([]int16, len(v))
+	for i, x := range v {
+		r[i] = int16(x)
+	}
+	return r
+}
+func convI32(v []float64) []int32 {
+	r := make([]int32, len(v))
+	for i, x := range v {
+		r[i] = int32(x)
+	}
+	return r
+}
+func convI64(v []float64) []int64 {
+	r := make([]int64, len(v))
+	for i, x := range v {
+		r[i] = int64(x)
+	}
+	return r
+}
+func convF32(v []float64) []float32 {
+	r := make([]float32, len(v))
+	for i, x := range v {
+		r[i] = float32(x)
+	}
+	return r
+}
+
+var mtypes = []mtype{
+	{"float64", false, 1000000, func(v []float64, r, c int) ad.Matrix { return ad.NewDenseFloat64Matrix(v, r, c) },
+		func(m ad.ConstMatrix) ad.Matrix { return ad.AsDenseFloat64Matrix(m) }, func(m ad.Matrix) ad.Matrix { return m.(*ad.DenseFloat64Matrix).Clone() }},
+	{"real64", true, 1000000, func(v []float64, r, c int) ad.Matrix { return ad.NewDenseReal64Matrix(v, r, c) },
+		func(m ad.ConstMatrix) ad.Matrix { return ad.AsDenseReal64Matrix(m) }, func(m ad.Matrix) ad.Matrix { return m.(*ad.DenseReal64Matrix).Clone() }},
+	{"float32", false, 2000, func(v []float64, r, c int) ad.Matrix { return ad.NewDenseFloat32Matrix(convF32(v), r, c) },
+		func(m ad.ConstMatrix) ad.Matrix { return ad.AsDenseFloat32Matrix(m) }, func(m ad.Matrix) ad.Matrix { return m.(*ad.DenseFloat32Matrix).Clone() }},
+	{"int", false, 1000000, func(v []float64, r, c int) ad.Matrix { return ad.NewDenseIntMatrix(convInt(v), r, c) },
+		func(m ad.ConstMatrix) ad.Matrix { return ad.AsDenseIntMatrix(m) }, func(m ad.Matrix) ad.Matrix { return m.(*ad.DenseIntMatrix).Clone() }},
+	{"int8", false, 5, func(v []float64, r, c int) ad.Matrix { return ad.NewDenseInt8Matrix(convI8(v), r, c) },
+		func(m ad.ConstMatrix) ad.Matrix { return ad.AsDenseInt8Matrix(m) }, func(m ad.Matrix) ad.Matrix { return m.(*ad.DenseInt8Matrix).Clone() }},
+	{"int16", false, 90, func(v []float64, r, c int) ad.Matrix { return ad.NewDenseInt16Matrix(convI16(v), r, c) },
+		func(m ad.ConstMatrix) ad.Matrix { return ad.AsDenseInt16Matrix(m) }, func(m ad.Matrix) ad.Matrix { return m.(*ad.DenseInt16Matrix).Clone() }},
+	{"int32", false, 20000, func(v []float64, r, c int) ad.Matrix { return ad.NewDenseInt32Matrix(convI32(v), r, c) },
+		func(m ad.ConstMatrix) ad.Matrix { return ad.AsDenseInt32Matrix(m) }, func(m ad.Matrix) ad.Matrix { return m.(*ad.DenseInt32Matrix).Clone() }},
+	{"int64", false, 1000000, func(v []float64, r, c int) ad.Matrix { return ad.NewDenseInt64Matrix(convI64(v), r, c) },
+		func(m ad.ConstMatrix) ad.Matrix { return ad.AsDenseInt64Matrix(m) }, func(m ad.Matrix) ad.Matrix { return m.(*ad.DenseInt64Matrix).Clone() }},
+	{"real32", true, 2000, func(v []float64, r, c int) ad.Matrix { return ad.NewDenseReal32Matrix(convF32(v), r, c) },
+		func(m ad.ConstMatrix) ad.Matrix { return ad.AsDenseReal32Matrix(m) }, func(m ad.Matrix) ad.Matrix { return m.(*ad.DenseReal32Matrix).Clone() }},
+}
+
+// address of the backing array of a dense matrix of any element type (field `values`)
+func storageAddr(m ad.ConstMatrix) uintptr {
+	v := reflect.ValueOf(m)
+	if v.Kind() != reflect.Ptr || v.IsNil() {
+		return 0
+	}
+	f := v.Elem().FieldByName("values")
+	if !f.IsValid() || f.Kind() != reflect.Slice || f.Len() == 0 {
+		return 0
+	}
+	return f.Pointer()
+}
+
 type mworld struct {
+	typ    int
 	real   bool
 	mats   []ad.Matrix
 	loc    map[uintptr]int
@@ -76,7 +165,9 @@ type mworld struct {
 	matloc []int
 }
 
-func newMWorld(real bool) *mworld { return &mworld{real: real, loc: map[uintptr]int{}} }
+func newMWorld(typ int) *mworld {
+	return &mworld{typ: typ, real: mtypes[typ].real, loc: map[uintptr]int{}}
+}
 
 func (w *mworld) exec(o *MOp) (nm ad.Matrix, panicked bool) {
 	defer func() {
@@ -91,25 +182,16 @@ func (w *mworld) exec(o *MOp) (nm ad.Matrix, panicked bool) {
 		for i, v := range o.Vals {
 			vals[i] = float64(v)
 		}
-		if w.real {
-			return ad.NewDenseReal64Matrix(vals, o.Rows, o.Cols), false
-		}
-		return ad.NewDenseFloat64Matrix(vals, o.Rows, o.Cols), false
+		return mtypes[w.typ].mk(vals, o.Rows, o.Cols), false
 	case "Clone":
 		m := w.mats[o.T]
 		switch o.Var % 3 {
 		case 0:
 			return m.CloneMatrix(), false
 		case 1:
-			if w.real {
-				return ad.AsDenseReal64Matrix(m), false
-			}
-			return ad.AsDenseFloat64Matrix(m), false
+			return mtypes[w.typ].as(m), false
 		default:
-			if w.real {
-				return m.(*ad.DenseReal64Matrix).Clone(), false
-			}
-			return m.(*ad.DenseFloat64Matrix).Clone(), false
+			return mtypes[w.typ].clone(m), false
 		}
 	case "View":
 		m := w.mats[o.T]
@@ -192,7 +274,10 @@ func (w *mworld) step(o *MOp) MObs {
 	}
 	if nm != nil {
 		w.mats = append(w.mats, nm)
-		addr, _ := ad.VerifC12StorageID(nm)
+		addr := storageAddr(nm)
+		if a2, ln := ad.VerifC12StorageID(nm); ln >= 0 && a2 != addr {
+			panic("storage identity: hook and reflection disagree")
+		}
 		l, ok := w.loc[addr]
 		if !ok {
 			l = len(w.keep)
@@ -260,6 +345,7 @@ func (ob *MObs) Coq() string {
 }
 
 type MCase struct {
+	Typ  int
 	Real bool
 	Ops  []MOp
 	Obs  []MObs
@@ -275,11 +361,20 @@ func (c MCase) Coq() string {
 
 func dimsOf(m ad.Matrix) (int, int) { return m.Dims() }
 
-func genMHistory(r *Rng, n int) (MCase, map[string]int, string) {
-	c := MCase{Real: r.Intn(3) == 0}
-	w := newMWorld(c.Real)
-	hist := map[string]int{}
-	key := fmt.Sprint(c.Real)
+// genMHistory: typ < 0 draws the element type; directed >= 0 starts with a clone of a TRANSPOSED,
+// column-restricted view (clone variant directed % 3) before the random continuation.
+func genMHistory(r *Rng, n int) (MCase, map[string]int, string) { return genMHistoryT(r, n, -1, -1) }
+
+func genMHistoryT(r *Rng, n, typ, directed int) (MCase, map[string]int, string) {
+	if typ < 0 {
+		typ = r.Intn(len(mtypes))
+	}
+	c := MCase{Typ: typ, Real: mtypes[typ].real}
+	w := newMWorld(typ)
+	hist := map[string]int{"M:type:" + mtypes[typ].name: 1}
+	key := mtypes[typ].name
+	bound := mtypes[typ].bound
+	narrow := bound < 1000000
 	do := func(o *MOp) bool {
 		ob := w.step(o)
 		c.Ops = append(c.Ops, *o)
@@ -306,6 +401,9 @@ func genMHistory(r *Rng, n int) (MCase, map[string]int, string) {
 	m0 := n0
 	if r.Intn(3) == 0 {
 		m0 = r.Range(1, 4)
+	}
+	if directed >= 0 {
+		n0, m0 = r.Range(2, 4), r.Range(3, 4)
 	}
 	do(newOp(n0, m0))
 	if r.Bool() {
@@ -335,11 +433,36 @@ func genMHistory(r *Rng, n int) (MCase, map[string]int, string) {
 		}
 	}
 	// a view before the copy, so that clones of views occur
-	if r.Bool() {
+	cvar := r.Intn(3)
+	src := -1
+	if directed >= 0 {
+		// T, then a slice of the transposed matrix that keeps all its rows but not all its columns
+		// (and, every other time, a row restriction as well): the copy must hold every element of it
+		hist["M:directed clone of a transposed column-restricted view"]++
+		base := len(w.mats) - 1
+		do(&MOp{K: "View", T: base, View: "T"})
+		t := len(w.mats) - 1
+		rows, cols := dimsOf(w.mats[t])
+		c0 := r.Intn(cols - 1)
+		c1 := c0 + 1 + r.Intn(cols-c0-1+1)
+		if c0 == 0 && c1 == cols {
+			c0 = 1
+		}
+		r0, r1 := 0, rows
+		if (directed/3)%2 == 1 && rows > 1 {
+			r0 = r.Intn(rows - 1)
+			r1 = r0 + 1 + r.Intn(rows-r0)
+		}
+		do(&MOp{K: "View", T: t, View: "Slice", A: [4]int{r0, r1, c0, c1}})
+		src = len(w.mats) - 1
+		cvar = directed % 3
+	} else if r.Bool() {
 		do(viewOp(0))
 	}
-	src := r.Intn(len(w.mats))
-	do(&MOp{K: "Clone", T: src, Var: r.Intn(3)})
+	if src < 0 {
+		src = r.Intn(len(w.mats))
+	}
+	do(&MOp{K: "Clone", T: src, Var: cvar})
 	cpy := len(w.mats) - 1
 	sameDims := func(t int) []int {
 		a, b := dimsOf(w.mats[t])
@@ -361,7 +484,7 @@ func genMHistory(r *Rng, n int) (MCase, map[string]int, string) {
 			t = r.Intn(len(w.mats))
 		}
 		rows, cols := dimsOf(w.mats[t])
-		arith := w.maxAbs() <= 1000000
+		arith := w.maxAbs() <= bound
 		var o *MOp
 		switch r.Pick([]int{25, 4, 4, 8, 10, 6, 6, 4, 4, 8, 8, 3}) {
 		case 0:
@@ -385,6 +508,9 @@ func genMHistory(r *Rng, n int) (MCase, map[string]int, string) {
 			}
 			l := sameDims(t)
 			o = &MOp{K: "Ew", F: r.Intn(3), R: t, T: l[r.Intn(len(l))], U: l[r.Intn(len(l))]}
+			if narrow && (w.matloc[o.T] == w.matloc[t] || w.matloc[o.U] == w.matloc[t]) && o.F == 2 {
+				continue
+			}
 			if o.F == 2 && (w.matloc[o.T] == w.matloc[t] || w.matloc[o.U] == w.matloc[t]) && w.maxAbs() > 1000 {
 				continue
 			}
@@ -394,6 +520,9 @@ func genMHistory(r *Rng, n int) (MCase, map[string]int, string) {
 			}
 			l := sameDims(t)
 			o = &MOp{K: "MdotM", R: t, T: l[r.Intn(len(l))], U: l[r.Intn(len(l))]}
+			if narrow && (w.matloc[o.T] == w.matloc[t] || w.matloc[o.U] == w.matloc[t]) {
+				continue
+			}
 			// receiver aliasing BOTH operands feeds results back into the same call: magnitudes leave the
 			// exactly representable integers; one aliased operand (either branch of the aliasing test) is generated
 			if w.matloc[o.T] == w.matloc[t] && w.matloc[o.U] == w.matloc[t] {
@@ -441,8 +570,8 @@ func genMHistory(r *Rng, n int) (MCase, map[string]int, string) {
 	return c, hist, key
 }
 
-func replayM(real bool, ops []MOp) []MObs {
-	w := newMWorld(real)
+func replayM(typ int, ops []MOp) []MObs {
+	w := newMWorld(typ)
 	var obs []MObs
 	for i := range ops {
 		ob := w.step(&ops[i])
@@ -452,4 +581,12 @@ func replayM(real bool, ops []MOp) []MObs {
 		}
 	}
 	return obs
+}
+
+func mtypeNames() []string {
+	r := make([]string, len(mtypes))
+	for i, t := range mtypes {
+		r[i] = t.name
+	}
+	return r
 }
